@@ -31,8 +31,8 @@ impl<'c, Q: Queue> Interp<'c, Q> {
             Op::Get { t, by_ref } => self.do_get(*t, *by_ref),
             Op::Retain { mask } => self.do_retain(*mask),
             Op::RetainMut { mask, rw, rwmask, tagw } => self.do_retain_mut(*mask, *rw, *rwmask, *tagw),
-            Op::IterMut { prog, rw, rwmask, tagw, end, via_into } => {
-                self.do_iter_mut(prog, *rw, *rwmask, *tagw, *end, *via_into)
+            Op::IterMut { prog, rw, rwmask, tagw, end, via_into, late } => {
+                self.do_iter_mut(prog, *rw, *rwmask, *tagw, *end, *via_into, *late)
             }
             Op::IterProg { which, prog, end } => self.do_iter_prog(*which, prog, *end),
             Op::Adapt { which, comp, a, b } => self.do_adapt(*which, *comp, *a, *b),
@@ -487,7 +487,10 @@ impl<'c, Q: Queue> Interp<'c, Q> {
                 if n == 0 {
                     self.fail(Group::Content, "peek_mut_empty", format!("{} returned {:?} on an empty queue", what, e));
                 } else if self.check_extreme(e, end, peeked, what) {
-                    self.model.set_tag(e.0, tagw);
+                    // the edit is meant for the element the preceding peek reported: if the call
+                    // addressed another one, the payloads of both differ from the model afterwards
+                    let intended = peeked.filter(|p| self.model.contains(*p)).unwrap_or(e.0);
+                    self.model.set_tag(intended, tagw);
                     self.stats.hit("tag_write");
                 }
             }
